@@ -111,25 +111,49 @@ def check_composition(api, st, result, tc, oc, right, name, add_prefix, ctx):
     if errs:
         ctx.violation(api, 'invariant', 'not_wf:' + errs[0].split(' ')[0].split('(')[0], '; '.join(errs[:3]), CUR['case'])
         return
-    if r.inputs != model.inputs:
-        V('inputs', 'inputs %r, documented composition has %r' % (r.inputs, model.inputs))
+    # Interface: positions and counts are what the documentation promises.  Labels of the *base* circuit are kept;
+    # the labels given to attached gates (prefix format) are not part of the property, so everything about the
+    # attached part is compared by position and by function.
+    n_base_in = sum(1 for i in base.inputs if model.gates[i][0] == 'INPUT')
+    n_base_out = sum(1 for o in base.outputs if o not in tc)
+    if len(r.inputs) != len(model.inputs):
+        V('inputs', '%d inputs %r, documented composition has %d (%d remaining base inputs + %d unconnected attached inputs)' % (
+            len(r.inputs), r.inputs, len(model.inputs), n_base_in, len(model.inputs) - n_base_in))
         return
-    if r.outputs != model.outputs:
-        V('outputs', 'outputs %r, documented composition has %r' % (r.outputs, model.outputs))
+    if r.inputs[:n_base_in] != model.inputs[:n_base_in]:
+        V('inputs', 'base inputs %r became %r' % (model.inputs[:n_base_in], r.inputs[:n_base_in]))
         return
-    if set(r.gates) != set(model.gates):
-        V('gate_set', 'gates differ from the documented composition: %r' % sorted(set(r.gates) ^ set(model.gates))[:6])
+    if len(r.outputs) != len(model.outputs):
+        V('outputs', '%d outputs %r, documented composition has %d (%d kept base outputs + %d unconnected attached outputs)' % (
+            len(r.outputs), r.outputs, len(model.outputs), n_base_out, len(model.outputs) - n_base_out))
+        return
+    if r.outputs[:n_base_out] != model.outputs[:n_base_out]:
+        V('outputs', 'kept base outputs %r became %r' % (model.outputs[:n_base_out], r.outputs[:n_base_out]))
+        return
+    if len(r.gates) != len(model.gates):
+        V('gate_count', 'result has %d gates, documented composition %d' % (len(r.gates), len(model.gates)))
+        return
+    if len(set(r.inputs)) != len(r.inputs):
+        V('inputs', 'duplicated input in %r' % (r.inputs,))
         return
     if len(model.inputs) <= 10:
-        vm, ns = refsem.truth_tables(model)
-        vr, _ = refsem.truth_tables(r)
-        for o in model.outputs:
-            if vm[o] != vr[o]:
-                V('function', 'kept output %r does not compute the composed function' % o)
+        cols, mask, ns = refsem.canonical_columns(len(model.inputs))
+        vm = refsem.eval_net(model, dict(zip(model.inputs, cols)), mask)
+        try:
+            vr = refsem.eval_net(r, dict(zip(r.inputs, cols)), mask)
+        except (KeyError, RecursionError) as ex:
+            V('result_not_evaluable', repr(ex))
+            return
+        for k, (om, orr) in enumerate(zip(model.outputs, r.outputs)):
+            if vm[om] != vr[orr]:
+                V('function', 'output #%d (%r) does not compute the composed function' % (k, orr))
                 return
-        for g in model.gates:
-            if vm[g] != vr[g]:
-                V('gate_function', 'gate %r does not compute the composed function' % g)
+        for g in base.gates:
+            if g in r.gates and vm[g] != vr[g]:
+                V('gate_function', 'base gate %r does not compute the composed function' % g)
+                return
+            if g not in r.gates:
+                V('base_gate_lost', 'base gate %r disappeared' % g)
                 return
     # block extraction
     if name != '':
@@ -145,26 +169,35 @@ def check_composition(api, st, result, tc, oc, right, name, add_prefix, ctx):
             return
         ctx.count('block_extracted')
         e = refsem.net_of(ext)
-        # identification of attached inputs made by the connection
-        want_inputs = list(dict.fromkeys(lab[i] for i in other.inputs))
-        if e.inputs != want_inputs:
-            V('block_inputs', 'extracted block has inputs %r, expected %r' % (e.inputs, want_inputs))
+        # identification of attached inputs made by the connection: connected inputs are identified with their
+        # base gate (two attached inputs on the same base gate become one), unconnected ones stay apart
+        conn = dict(zip(oc, tc))
+        classes = []
+        cls_of = {}
+        for i in other.inputs:
+            c = ('c', conn[i]) if i in conn else ('u', i)
+            cls_of[i] = c
+            if c not in classes:
+                classes.append(c)
+        if len(e.inputs) != len(classes):
+            V('block_inputs', 'extracted block has %d inputs %r, the attached circuit has %d distinct inputs after the connection' % (
+                len(e.inputs), e.inputs, len(classes)))
             return
-        if e.outputs != [lab[o] for o in other.outputs]:
-            V('block_outputs', 'extracted block has outputs %r, expected %r' % (e.outputs, [lab[o] for o in other.outputs]))
+        if len(e.outputs) != len(other.outputs):
+            V('block_outputs', 'extracted block has %d outputs, the attached circuit %d' % (len(e.outputs), len(other.outputs)))
             return
-        if len(want_inputs) <= 10:
-            cols, mask, ns = refsem.canonical_columns(len(want_inputs))
-            colmap = dict(zip(want_inputs, cols))
+        if len(classes) <= 10:
+            cols, mask, ns = refsem.canonical_columns(len(classes))
+            ccol = dict(zip(classes, cols))
             try:
-                ve = refsem.eval_net(e, colmap, mask, wanted=list(e.outputs))
+                ve = refsem.eval_net(e, dict(zip(e.inputs, cols)), mask, wanted=list(e.outputs))
             except (KeyError, RecursionError) as ex:
                 V('block_malformed', 'extracted block cannot be evaluated: %r' % (ex,))
                 return
-            vo = refsem.eval_net(other, {i: colmap[lab[i]] for i in other.inputs}, mask, wanted=list(other.outputs))
-            for o in other.outputs:
-                if ve[lab[o]] != vo[o]:
-                    V('block_function', 'extracted block output %r does not compute the attached circuit\'s function' % lab[o])
+            vo = refsem.eval_net(other, {i: ccol[cls_of[i]] for i in other.inputs}, mask, wanted=list(other.outputs))
+            for k, (oo, eo) in enumerate(zip(other.outputs, e.outputs)):
+                if ve[eo] != vo[oo]:
+                    V('block_function', 'extracted block output #%d does not compute the attached circuit\'s function' % k)
                     return
 
 
